@@ -153,7 +153,12 @@ type OptV struct {
 	Arg  Value
 }
 
-type RTypeV struct{ Name string }
+type RTypeV struct {
+	Name string
+	Kind int // reflect.Kind when known (element types of the tensor library), else -1
+	Size int
+	Sym  *smt.Term // BV8 index into the dtype universe when the dtype is symbolic
+}
 
 // RValV stands for a reflect.Value wrapping an interface value.
 type RValV struct{ V IfaceV }
